@@ -166,6 +166,49 @@ exists s, V; exists q', sd', Vd; split.
   + by rewrite /Vd trmx_mul sH -mulmxA (mulmxA H) HH mul1mx tr_col_mx trmx0 (@mul_row_col _ q' 1 n) mul0mx add0r.
 Qed.
 
+(* ---- rank = number of non-zero eigenvalues: the side condition p <= rank W of the eigen contract says
+        "at most as many pairs as there are positive eigenvalues", which is what the count rule of C10 keeps ---- *)
+Lemma rank_diagv n (d : 'cV[F]_n) : \rank (diagv d) = #|[set i | d i 0 != 0]|.
+Proof.
+pose S := [set i | d i 0 != 0].
+have -> : \rank (diagv d) = \rank (\sum_(i in S) <<delta_mx 0 i : 'rV[F]_n>>)%MS.
+  apply/eqmx_rank/andP; split.
+    apply/row_subP => i; case: (boolP (i \in S)) => [iS|iS].
+      apply: (submx_trans _ (sumsmx_sup i iS (submx_refl _))).
+      rewrite genmxE; have -> : row i (diagv d) = d i 0 *: delta_mx 0 i.
+        by apply/matrixP => a b; rewrite !mxE ord1 eqxx /=; case: eqP => [->|]; rewrite ?eqxx ?mulr1 ?mulr0 // eq_sym => /eqP/negbTE ->; rewrite mulr0.
+      exact: scalemx_sub.
+    have -> : row i (diagv d) = 0; last exact: sub0mx.
+    apply/matrixP => a b; rewrite !mxE; case: eqP => // _.
+    by move: iS; rewrite inE negbK => /eqP.
+  apply/sumsmx_subP => i iS; rewrite genmxE.
+  have -> : delta_mx 0 i = (d i 0)^-1 *: row i (diagv d) :> 'rV[F]_n.
+    apply/matrixP => a b; rewrite !mxE ord1 eqxx /=; move: iS; rewrite inE => di.
+    by rewrite eq_sym; case: eqP => _; rewrite ?mulVf ?mulr0.
+  by apply: scalemx_sub; apply: row_sub.
+have /mxdirectP -> := @mxdirect_delta F _ (mem S) n id (in2W (@inj_id _)).
+rewrite -sum1_card; apply: eq_bigr => i _ /=.
+by rewrite mxrank_gen mxrank_delta.
+Qed.
+
+Lemma rank_spectral n (P : 'M[F]_n) (d : 'cV[F]_n) :
+  P^T *m P = 1%:M -> \rank (P *m diagv d *m P^T) = #|[set i | d i 0 != 0]|.
+Proof.
+move=> PP; have [uPt uP] := mulmx1_unit PP.
+rewrite mxrankMfree ?row_free_unit // -mxrank_tr trmx_mul mxrankMfree ?row_free_unit ?unitmx_tr // mxrank_tr.
+exact: rank_diagv.
+Qed.
+
+(* for a positive semi-definite matrix: rank = number of POSITIVE eigenvalues *)
+Theorem rank_is_positive_eigen_count n (W : 'M[F]_n) :
+  sym W -> psd W -> exists P : 'M[F]_n, exists d : 'cV[F]_n,
+    [/\ P^T *m P = 1%:M, W = P *m diagv d *m P^T, (forall i, 0 <= d i 0) & \rank W = #|[set i | 0 < d i 0]|].
+Proof.
+move=> sW pW; have [P [d [PP eW d0]]] := spectral_psd sW pW.
+exists P, d; split=> //; rewrite {1}eW rank_spectral //.
+by apply: eq_card => i; rewrite !inE lt_neqAle eq_sym d0 andbT.
+Qed.
+
 (* ---- the reduced-QR contract is satisfiable ------------------------------------------------ *)
 Lemma qr_exists_b n m k (C : 'M[F]_(n, m)) : k = minn n m ->
   exists QR : 'M[F]_(n, k) * 'M[F]_(k, m), (QR.1 *m QR.2 == C) && (QR.1^T *m QR.1 == 1%:M).
